@@ -14,8 +14,13 @@ import (
 //	chan_ops   every channel send / receive / select-default inside the scorch functions that make up
 //	           the lock/channel protocol: (function, channel expression, kind 0=send 1=recv 2=default,
 //	           guarded) where guarded = the operation is a communication clause of a select that also
-//	           has a "<-s.closeCh" (or "<-ctx.Done()" / "<-cw.cancelCh") arm.  The arms on closeCh /
-//	           Done / cancelCh / time.After themselves are the guards and are not listed.
+//	           has a "<-s.closeCh" (or "<-ctx.Done()" / "<-cw.cancelCh") arm AND that arm gets out: when
+//	           the select sits in a for loop of the function, the arm's body must end by leaving that
+//	           loop (return, or break / continue to a label outside it); a bare "break" only leaves the
+//	           select, and the loop would take the closed channel's arm again and again.  The arms on
+//	           closeCh / Done / cancelCh / time.After themselves are the guards and are not listed.
+//	close_arms (function, ordinal of the select in the function, the arm gets out) for every select
+//	           with a closeCh / Done / cancelCh arm.
 //	methods    every method of *indexImpl and *indexAliasImpl: (receiver type, name, exported,
 //	           takes i.mutex.RLock()/Lock(), tests i.open, methods of the receiver it calls).
 //	check_done_every, collect_poll_before, collect_poll_in_loop
@@ -61,7 +66,7 @@ func init() {
 		}
 		fmt.Fprintf(w, "  (* (function, channel, kind 0=send 1=recv 2=default, guarded by a closeCh/Done/cancelCh arm) *)\n")
 		fmt.Fprintf(w, "  Definition chan_ops : list (list Z * list Z * Z * bool) := [\n")
-		var rows []string
+		var rows, armRows []string
 		for _, f := range fns {
 			fd := c.FindFunc("index/scorch", f.recv, f.name)
 			if fd == nil || fd.Body == nil {
@@ -73,6 +78,11 @@ func init() {
 					f.name, []string{"send", "recv", "default"}[kind], ch))
 			}
 			inSelect := map[ast.Node]bool{} // comm statements already handled as part of a select
+			leaves := closeArmsLeave(fd, func(st ast.Stmt) bool {
+				ch, _, ok := commOf(st)
+				return ok && isCloseGuard(ch)
+			})
+			nsel := 0
 			ast.Inspect(fd.Body, func(n ast.Node) bool {
 				sel, ok := n.(*ast.SelectStmt)
 				if !ok {
@@ -87,6 +97,11 @@ func init() {
 						}
 					}
 				}
+				if guarded {
+					armRows = append(armRows, fmt.Sprintf("    (%s, %d, %v)", CoqStr(f.name), nsel, leaves[sel]))
+					guarded = leaves[sel]
+				}
+				nsel++
 				for _, cl := range sel.Body.List {
 					cc := cl.(*ast.CommClause)
 					if cc.Comm == nil {
@@ -118,6 +133,8 @@ func init() {
 			})
 		}
 		fmt.Fprintf(w, "%s\n  ].\n", strings.Join(rows, ";\n"))
+		fmt.Fprintf(w, "  (* (function, ordinal of the select, its closeCh/Done/cancelCh arm leaves the enclosing loop) *)\n")
+		fmt.Fprintf(w, "  Definition close_arms : list (list Z * Z * bool) := [\n%s\n  ].\n", strings.Join(armRows, ";\n"))
 
 		// ---------- (b) exported methods of indexImpl / indexAliasImpl ----------
 		fmt.Fprintf(w, "  (* (receiver, method, exported, takes mutex.RLock/Lock, tests open, receiver methods it calls) *)\n")
@@ -310,6 +327,83 @@ func init() {
 		}
 		return nil
 	})
+}
+
+// closeArmsLeave tells for every select statement of fd that has a close-guard arm whether that arm
+// gets out of the innermost for loop of the function around the select (true when there is none):
+// its body must end in a return, in "break L" with L labelling that loop or a statement around it, or
+// in "continue L" / "goto L" with L labelling a statement strictly around that loop.  Function
+// literals are separate functions.
+func closeArmsLeave(fd *ast.FuncDecl, isGuardComm func(ast.Stmt) bool) map[*ast.SelectStmt]bool {
+	res := map[*ast.SelectStmt]bool{}
+	var stack []ast.Node
+	ast.Inspect(fd.Body, func(n ast.Node) bool {
+		if n == nil {
+			stack = stack[:len(stack)-1]
+			return true
+		}
+		stack = append(stack, n)
+		sel, ok := n.(*ast.SelectStmt)
+		if !ok {
+			return true
+		}
+		// innermost enclosing for / range (not across a function literal), and the labels around it
+		loopAt := -1
+		for i := len(stack) - 2; i >= 0; i-- {
+			if _, ok := stack[i].(*ast.FuncLit); ok {
+				break
+			}
+			switch stack[i].(type) {
+			case *ast.ForStmt, *ast.RangeStmt:
+				loopAt = i
+			}
+			if loopAt >= 0 {
+				break
+			}
+		}
+		labelsAtOrAround := map[string]bool{} // labels of the loop itself and of statements around it
+		labelsAround := map[string]bool{}     // labels of statements strictly around the loop
+		if loopAt >= 0 {
+			for i := loopAt - 1; i >= 0; i-- {
+				if _, ok := stack[i].(*ast.FuncLit); ok {
+					break
+				}
+				if ls, ok := stack[i].(*ast.LabeledStmt); ok {
+					labelsAtOrAround[ls.Label.Name] = true
+					if i != loopAt-1 || ls.Stmt != stack[loopAt] {
+						labelsAround[ls.Label.Name] = true
+					}
+				}
+			}
+		}
+		for _, cl := range sel.Body.List {
+			cc := cl.(*ast.CommClause)
+			if cc.Comm == nil || !isGuardComm(cc.Comm) {
+				continue
+			}
+			out := loopAt < 0
+			if !out && len(cc.Body) > 0 {
+				switch last := cc.Body[len(cc.Body)-1].(type) {
+				case *ast.ReturnStmt:
+					out = true
+				case *ast.BranchStmt:
+					if last.Label != nil {
+						switch last.Tok {
+						case token.BREAK:
+							out = labelsAtOrAround[last.Label.Name]
+						case token.CONTINUE, token.GOTO:
+							out = labelsAround[last.Label.Name]
+						}
+					}
+				}
+			}
+			if _, seen := res[sel]; !seen || !out { // several guard arms: all must get out
+				res[sel] = out
+			}
+		}
+		return true
+	})
+	return res
 }
 
 // chanText renders a channel expression, including index/call forms exprText does not know.
